@@ -234,6 +234,13 @@ var properties = map[string]*Property{
 			Quick:    Tier{Runs: 3000, BudgetS: 100},
 			Thorough: Tier{Runs: 150000, BudgetS: 1200},
 		}, {
+			Name: "provider-fs-start", Property: "C18", Pkg: "./internal/rules/provider/filesystem", Test: "TestVerifC18FSStart",
+			Dirs:       []string{"internal/rules/provider/filesystem"},
+			Files:      []string{"zz_verif_c18_test.go", "zz_verif_fsstart_test.go"},
+			Instrument: []string{"internal/rules/provider/filesystem/provider.go:yields"},
+			Quick:      Tier{Runs: 400, BudgetS: 60},
+			Thorough:   Tier{Runs: 20000, BudgetS: 600},
+		}, {
 			Name: "provider-blob", Property: "C18", Pkg: "./internal/rules/provider/cloudblob", Test: "TestVerifC18Blob",
 			Dirs:     []string{"internal/rules/provider/cloudblob"},
 			Files:    []string{"zz_verif_c18_test.go"},
